@@ -47,10 +47,22 @@ def main() -> int:
         pool.put(wt)
     results = {}
 
+    # a stored change is tried against its own property's check; where DESIGN.md 9.7 names another check as the one
+    # that decides it, that check is tried as well
+    also = {"C12E": ["C17"]}
+
     def one(seed: str):
+        res = None
+        for prop in [seed[:3]] + also.get(seed, []):
+            s2, res = one_prop(seed, prop)
+            if res.get("rc") == 1 and res.get("clauses"):
+                res["check"] = prop
+                return s2, res
+        return seed, res
+
+    def one_prop(seed: str, prop: str):
         wt = pool.get()
         try:
-            prop = seed[:3]
             patch = SEEDED / seed / "patch.diff"
             subprocess.run(["git", "-C", wt, "checkout", "-q", "--", "."], check=True)
             ap = subprocess.run(["git", "-C", wt, "apply", str(patch)], capture_output=True, text=True)
@@ -88,7 +100,7 @@ def main() -> int:
             except Exception:
                 meta = {}
             if res.get("applies") and res.get("rc") == 1 and res.get("clauses"):
-                meta["detected_by"] = [f"./check {seed[:3]} --tier {tier}: " + ", ".join(res["clauses"])]
+                meta["detected_by"] = [f"./check {res.get('check', seed[:3])} --tier {tier}: " + ", ".join(res["clauses"])]
             else:
                 meta["detected_by"] = []
                 meta["not_detected"] = res
